@@ -47,7 +47,7 @@ func c02Pair(c *Ctx, cs Case, img []byte, cert *x509.Certificate, class, certkin
 			Go: got, Spec: "Spec.authenticodeVerifyLenient=" + spec})
 	}
 	if got == "ok true" && certkind != "right" {
-		c.Fail(Failure{Kind: "property", What: "verification succeeded under a certificate whose key did not sign (" + certkind + ")", Case: cs, Go: got})
+		c.Fail(Failure{Kind: "property", What: "verification succeeded under a certificate whose key did not sign (" + class + ", certificate: " + certkind + ")", Case: cs, Go: got})
 	}
 	// an oracle that does not go through the Lean Spec: the way these classes are built rules a success out (no
 	// signature at all / a covered byte differs from what every key present signed / the signature was made over
@@ -739,9 +739,11 @@ func c02Eval(c *Ctx, cs Case) {
 			}
 			return
 		}
-		if class == "forge-resigned-by-other" {
-			// the stranger's key really signs here (a genuine signature of the stranger over this image's digest):
-			// asked under the certificates whose keys did not
+		if class == "forge-resigned-by-other" || strings.HasPrefix(class, "forge-carrier/") {
+			// the stranger's key really signs here (a genuine signature of the stranger over this image's digest, alone
+			// or carrying the original blob as a passenger): asked under the certificates whose keys did not.
+			// (The thorough tier used to ask the carrier classes under the stranger's certificate too: a false alarm of
+			// the oracle, found by the thorough sweep on the unchanged tree.)
 			c02Pair(c, cs, withTable(signed, winCert(b)), right, "blob-"+class, "right")
 			c02Pair(c, cs, withTable(signed, winCert(b)), twin, "blob-"+class, "twin")
 			return
